@@ -584,14 +584,14 @@ fn rand_token(rng: &mut Rng, max: usize) -> String {
 }
 
 /// a header value: a token, one time in five with a character inside it that is legal in a field value but easily taken for
-/// dirt - HTAB (field-content may contain it), DEL and C1 controls (obs-text) - never first or last (DESIGN 5a).  Added after a
+/// dirt - HTAB (field-content may contain it) and C1 controls (their UTF-8 bytes are obs-text) - never first or last (DESIGN 5a).  Added after a
 /// seeded "response-splitting defence" that strips every char::is_control() from values on serialisation was missed (round 8).
 fn rand_value(rng: &mut Rng, max: usize) -> String {
     let s = rand_token(rng, max);
     if s.chars().count() < 2 || !rng.chance(1, 5) {
         return s;
     }
-    let c = *rng.pick(&['\t', '\u{7f}', '\u{80}', '\u{85}', '\u{9f}']);
+    let c = *rng.pick(&['\t', '\u{80}', '\u{85}', '\u{9f}']);   // not DEL: 0x7F is neither VCHAR nor obs-text
     let at = rng.range(1, s.chars().count() - 1);
     let mut out = String::new();
     for (i, ch) in s.chars().enumerate() {
